@@ -247,8 +247,11 @@ DNew(cs, nm) ==     \* Value(name=nm); its id is DLast of the result
   LET c1 == SPad([cs EXCEPT !.s = AddFreshVals(cs.s, 1)])
   IN [c1 EXCEPT !.s.vName[Len(c1.s.vProd)] = nm]
 DLast(cs) == Len(cs.s.vProd)
-\* deserialize_value_info_proto: type and shape overwritten, metadata merged, doc string overwritten
-DApplyVI(cs, v, vi) == [cs EXCEPT !.ty[v] = vi.ty, !.sh[v] = vi.sh, !.md[v] = @ \cup vi.md, !.vdoc[v] = vi.doc]
+\* deserialize_value_info_proto: type and shape overwritten when the entry has a type (an entry without one
+\* leaves what the value already has, e.g. what an initializer took from its tensor), metadata merged,
+\* doc string overwritten
+DApplyVI(cs, v, vi) == [cs EXCEPT !.ty[v] = IF vi.ty = "" THEN @ ELSE vi.ty, !.sh[v] = IF vi.ty = "" THEN @ ELSE vi.sh,
+                                  !.md[v] = @ \cup vi.md, !.vdoc[v] = vi.doc]
 DMaybeVI(cs, v, P, nm) == IF HasVI(P, nm) THEN DApplyVI(cs, v, LastVI(P, nm)) ELSE cs
 DSetTensor(cs, v, t) == [cs EXCEPT !.s.vConst[v] = TRUE, !.cty[v] = t.ty, !.csh[v] = t.sh, !.tn[v] = t.name]
 
